@@ -72,7 +72,7 @@ fn traj(g: &mut SplitMix64, ncases: usize) {
         }
     }
     // make_bond_weights against the model
-    for _ in 0..(ncases / 8).max(10) {
+    for _ in 0..(ncases / 4).max(10) {
         let nvars = g.range(1, 4) as usize;
         let bonds = gen_bonds(g, nvars);
         let bw = real_table(&bonds);
@@ -94,7 +94,12 @@ fn traj(g: &mut SplitMix64, ncases: usize) {
 
 /// Pick a configuration with an empty slot, the slot k and a bond b.
 fn pick_case(g: &mut SplitMix64) -> (Cfg, usize, usize) {
+    // in a third of the cases insist on a bond on >= 3 variables whose (unique) maximal weight is the one
+    // at the current sub-state of slot k: that is where a wrong table maximum shows
+    let want_multi = g.chance(1, 3);
+    let mut tries = 0;
     loop {
+        tries += 1;
         let cfg = gen_cfg(g, true);
         let before = padded(&cfg);
         let empties: Vec<usize> = (0..before.len()).filter(|p| before[*p].is_none()).collect();
@@ -102,7 +107,21 @@ fn pick_case(g: &mut SplitMix64) -> (Cfg, usize, usize) {
             continue;
         }
         let k = *g.pick(&empties);
-        let b = g.below(cfg.bonds.len() as u64) as usize;
+        let mut b = g.below(cfg.bonds.len() as u64) as usize;
+        if want_multi && tries < 400 {
+            let st = state_at(&cfg, k);
+            let hit: Vec<usize> = (0..cfg.bonds.len())
+                .filter(|b| {
+                    let tb = &cfg.bonds[*b];
+                    tb.vars.len() >= 3 && unique_argmax(tb) == Some(bit_index(substate(&st, &tb.vars).iter()))
+                })
+                .collect();
+            if hit.is_empty() {
+                continue;
+            }
+            b = *g.pick(&hit);
+            stat(&format!("prob_multivar_at_argmax_{}", bit_index(substate(&st, &cfg.bonds[b].vars).iter())), 1);
+        }
         return (cfg, k, b);
     }
 }
@@ -252,10 +271,9 @@ fn prob_metropolis(g: &mut SplitMix64) -> bool {
         }
     };
     let t_rem = threshold_down(|x| {
-        let mut sc = s[..jrem.min(s.len())].to_vec();
-        while sc.len() < jrem {
-            sc.push(0); // cannot happen: the prefix consumed jrem words in base2
-        }
+        // the words the prefix actually consumed in the run with the operator installed (the prefix may
+        // consume a different number of words than in the first run although its outcome is the same)
+        let mut sc = base2.log[..jrem].to_vec();
         sc.push(x);
         run_sweep(&cfg2, None, sc, seed).map(|o| o.slots[k].is_none()).unwrap_or(false)
     });
